@@ -35,6 +35,9 @@ pub const TOKENS: &[&[u8]] = &[
     b"<P Class=K>",
     b"</TITLE>",
     b"<title-bar>",
+    // plain white space (a doctype / tag with nothing but blanks before '>'), a self-closing raw-text element
+    b" ",
+    b"<title/>",
 ];
 
 pub const CONTEXTS: &[&str] = &["", "script", "style", "textarea", "title", "plaintext", "iframe", "noembed", "noframes", "noscript", "xmp", "div"];
@@ -55,8 +58,16 @@ fn kind_char(t: TokenType) -> char {
 /// Runs the tokenizer over one input; returns Err((kind, explanation)) on a violation, Ok(kind sequence) otherwise.
 pub fn check_input(input: &[u8], context: &str) -> Result<String, (String, String)> {
     let valid_utf8 = std::str::from_utf8(input).is_ok();
-    let res = catch_unwind(AssertUnwindSafe(|| -> Result<String, (String, String)> {
+    // a context written "!nocdata" / "!nocdata:<element>" is the same fragment context with Tokenizer::allow_cdata(false)
+    let (no_cdata, context) = match context.strip_prefix("!nocdata") {
+        Some(rest) => (true, rest.trim_start_matches(':')),
+        None => (false, context),
+    };
+    let res = crate::common::guarded(|| -> Result<String, (String, String)> {
         let mut t = Tokenizer::new_fragment(input.to_vec(), context.to_string());
+        if no_cdata {
+            t.allow_cdata(false);
+        }
         let mut rebuilt: Vec<u8> = Vec::with_capacity(input.len());
         let mut kinds = String::new();
         let mut n = 0usize;
@@ -146,10 +157,10 @@ pub fn check_input(input: &[u8], context: &str) -> Result<String, (String, Strin
             ));
         }
         Ok(kinds)
-    }));
+    });
     match res {
         Ok(r) => r,
-        Err(e) => Err(("panic".into(), format!("tokenizer panicked: {}", panic_message(&e)))),
+        Err((loc, msg)) => Err(("panic".into(), format!("tokenizer panicked at {loc}: {msg}"))),
     }
 }
 
@@ -420,6 +431,11 @@ pub fn run(tier: Tier) -> i32 {
     for context in CONTEXTS.iter().skip(1) {
         sweep(&ctx, "bytes-in-context", context, &bytes_alpha_ref, lc, &kinds, &samples);
         sweep(&ctx, "tokens-in-context", context, TOKENS, tier.pick(2, 3), &kinds, &samples);
+    }
+    // the other tokenizer mode: allow_cdata(false) (a CDATA section is then a bogus comment), document and two fragment contexts
+    for context in ["!nocdata", "!nocdata:title", "!nocdata:script"] {
+        sweep(&ctx, "tokens-no-cdata", context, TOKENS, tier.pick(3, 4), &kinds, &samples);
+        sweep(&ctx, "bytes-no-cdata", context, &bytes_alpha_ref, tier.pick(5, 6), &kinds, &samples);
     }
     let after_c = ctx.evaluations.load(std::sync::atomic::Ordering::Relaxed);
     // (d)
